@@ -613,6 +613,24 @@ def corpus(c, pool):
         check_hostile(c, t, kind="corpus")
 
 
+def long_tap_leaves(c, pool):
+    """tr(K, leaf) with leaf scripts whose length crosses the CompactSize boundary of the BIP341 leaf hash (252 / 253 /
+    254+ bytes): and_v(v:multi_a(2, 7 or 8 keys), and_v(v:after(a), after(b))) compiles to 240 (274) + push(a) + 2 + push(b) + 1
+    bytes; the random generator caps multis and never builds a leaf that long"""
+    for nkeys, a, b in ((7, 70000, 500000001), (7, 500000000, 500000001), (7, 500000000, 70000), (8, 500000000, 500000001), (7, 16, 17)):
+        try:
+            keys = [pool.key(True, 2, private_ok=False) for _ in range(nkeys)]
+            leaf = ("bin", "and_v", ("wrap", "v", ("multi", "multi_a", 2, keys)),
+                    ("bin", "and_v", ("wrap", "v", ("time", "after", a)), ("time", "after", b)))
+            D = dgen.Desc("tr", key=pool.key(True, 2, private_ok=False), tree=("leaf", leaf))
+        except Exception as e:  # the generator's own data structures changed: say so instead of hiding it
+            c.broken.append(("generator", "long_tap_leaves: %s: %s" % (type(e).__name__, e)))
+            return
+        check_desc(c, D, "long-tap-leaf", full=True)
+    c.tally("long-tap-leaves")
+    c.flush()
+
+
 def generated(c, pool, n, full=False):
     texts = []
     for j in range(n):
@@ -664,6 +682,7 @@ def run(tier, seed):
     c.flush()
     n = 420 if tier == "quick" else 4200
     texts = generated(c, pool, n)
+    long_tap_leaves(c, pool)
     # BIP380's checksum is defined on every string over its input character set: random strings over all three
     # character groups in every length residue mod 3 (the last, incomplete group is encoded differently), besides
     # descriptor texts (which nearly always end in group-0 characters)
